@@ -128,8 +128,16 @@ def _aggregate_names(fn: FuncInfo, mt: "ModesTaint") -> Set[str]:
     return out
 
 
-def _uses_modes_directly(e: ast.AST, mt: "ModesTaint") -> bool:
-    """The expression mentions the mode tuple other than as the argument of len/min/max/sum/set(...)."""
+def _uses_modes_directly(e: ast.AST, mt: "ModesTaint", depth: int = 0) -> bool:
+    """The expression mentions the mode tuple other than as the argument of len/min/max/sum/set(...) - directly or through a
+    local that was computed from it."""
+    if depth < 3:
+        for n in ast.walk(e):
+            if isinstance(n, ast.Name) and isinstance(n.ctx, ast.Load) and not mt.derived(n):
+                defs = [a.value for a in walk_no_nested(mt.fn.node) if isinstance(a, ast.Assign) and len(a.targets) == 1
+                        and isinstance(a.targets[0], ast.Name) and a.targets[0].id == n.id]
+                if len(defs) == 1 and defs[0] is not e and _uses_modes_directly(defs[0], mt, depth + 1):
+                    return True
     parents: Dict[int, ast.AST] = {}
     for n in ast.walk(e):
         for c in ast.iter_child_nodes(n):
